@@ -61,6 +61,23 @@ Theorem c20_never_blocks : forall s b ok,
 Proof. exact never_blocks. Qed.
 Print Assumptions c20_never_blocks.
 
+(** The fan-out to mirror j does not depend on the state of any mirror i <> j: one send gives channel j the
+    same result whatever the other channels are (a full, closed or stalled mirror listed BEFORE j does not stop
+    the fan-out), and over whole runs mirror j ends in the same state -- queue, connection, everything it was
+    handed -- when all other mirrors are replaced by anything and all their steps are erased. *)
+Theorem c20_mirrors_independent_send : forall cs1 cs2 b j,
+  nth_error cs1 j = nth_error cs2 j ->
+  nth_error (mirror_send cs1 b) j = nth_error (mirror_send cs2 b) j.
+Proof. exact mirrors_independent_send. Qed.
+Print Assumptions c20_mirrors_independent_send.
+
+Theorem c20_mirrors_independent : forall ops s m1 m2 j,
+  nth_error m1 j = nth_error m2 j ->
+  nth_error (snd (fst (run s m1 ops))) j =
+  nth_error (snd (fst (run s m2 (filter (concerns j) ops)))) j.
+Proof. exact mirrors_independent. Qed.
+Print Assumptions c20_mirrors_independent.
+
 (** In the pooler a send on a live connection is logged in the very step it is issued, in
     every state of every mirror: there is no enabling condition. *)
 Theorem c20_send_always_completes : forall g w cid c b ok,
@@ -166,6 +183,16 @@ Example ex_early_return :
   let dead := mkChan [] true Down 0 [] in
   map q (mirror_send [dead; new_chan] (buf 7)) = [[]; [buf 7]]
   /\ mirror_send [dead; dead] (buf 7) = [dead; dead].
+Proof. vm_compute. split; reflexivity. Qed.
+
+(** a stalled mirror listed first (never connects, its channel fills up) does not keep anything from the healthy
+    mirror listed after it *)
+Example ex_stalled_first :
+  let n := capacity + 8 in
+  let ops := [Env1 1 Reconnect] ++ flat_map (fun b => [Send1 b true; Env1 1 Deliver]) (bufs n) in
+  let r := run srv0 [new_chan; new_chan] ops in
+  map snd (handed (nth 1 (snd (fst r)) new_chan)) = bufs n
+  /\ q (nth 0 (snd (fst r)) new_chan) = firstn capacity (bufs n).
 Proof. vm_compute. split; reflexivity. Qed.
 
 (** a failing write to the mirror loses that buffer only; a failing write to the REAL server
